@@ -147,6 +147,12 @@ def run(tier, seed):
                 v.violation(f"{nm}-{k[1]}", f"case {nm}: {msg} (failed hypotheses: {sorted(flags) or 'none'})",
                             f"# {msg}\n# query #{k[1]}: {' '.join(cases.queries[k])}\n" + cases.replay_text(nm))
             reported = parse_list(ia.get(ck[0], "[]"))
+            # the model enumerates the root orders: more than one possible answer = the report depends on
+            # HashMap iteration order (which rotation of a cycle, anchored at which fixture)
+            if same and "root-order" in flags and ma.get(ck[0], "").startswith("ANYOF") and " || " in ma.get(ck[0], ""):
+                e = r.known_by_hyp.get("root-order")
+                if e:
+                    v.known(e["id"], e["summary"])
             if ia.get(ck[0]) != ia.get(ck[1]):
                 report(f"two consecutive cycle queries differ: {ia.get(ck[0])} vs {ia.get(ck[1])}", ["root-order"], ck[1])
             # soundness
